@@ -54,14 +54,33 @@ func cfgBody(tag string, dry bool, delay string, extra string) string {
 	return fmt.Sprintf("General:\n  ConfigurationVersion: 2\n  DatasetPrefix: %s\nNetwork:\n  ListenAddr: 0.0.0.0:8080\nDebugging:\n  DryRun: %v\nTraces:\n  SendDelay: %s\n%s", tag, dry, delay, extra)
 }
 
+// wide: one differing value in every group of reloadable settings (V0 leaves them all at their defaults), so that a
+// reload which carries over part of the running configuration shows in some getter
+func wide(i int) string {
+	return fmt.Sprintf("Collection:\n  AvailableMemory: %dGb\n  MaxMemoryPercentage: %d\n  ShutdownDelay: %ds\n  DisableRedistribution: %v\n"+
+		"AccessKeys:\n  ReceiveKeys:\n    - key%d\n  AcceptOnlyListedKeys: %v\n"+
+		"RefineryTelemetry:\n  AddRuleReasonToTrace: %v\n  AddSpanCountToRoot: %v\n  AddHostMetadataToTrace: %v\n"+
+		"Logger:\n  Level: %s\n"+
+		"SampleCache:\n  KeptSize: %d\n  DroppedSize: %d\n"+
+		"Specialized:\n  AdditionalAttributes:\n    env: e%d\n"+
+		"BufferSizes:\n  UpstreamBufferSize: %d\n",
+		i+1, 50+10*i, 10+i, i%2 == 1,
+		i, i%2 == 1,
+		i%2 == 1, i%2 == 0, i%2 == 1,
+		[]string{"warn", "info", "debug"}[i%3],
+		20000+i, 2000000+i,
+		i,
+		20000+i)
+}
+
 func rulesBody(rate int, extra string) string {
 	return fmt.Sprintf("RulesVersion: 2\nSamplers:\n  __default__:\n    DeterministicSampler:\n      SampleRate: %d\n%s", rate, extra)
 }
 
 var cfgContents = []content{
 	{ID: "V0", Class: "valid", Body: cfgBody("v0", false, "2s", "")},
-	{ID: "V1", Class: "valid", Body: cfgBody("v1", true, "3s", "")},
-	{ID: "V2", Class: "valid", Body: cfgBody("v2", false, "4s", "StressRelief:\n  Mode: always\n")},
+	{ID: "V1", Class: "valid", Body: cfgBody("v1", true, "3s", wide(1))},
+	{ID: "V2", Class: "valid", Body: cfgBody("v2", false, "4s", "StressRelief:\n  Mode: always\n"+wide(2))},
 	// deprecated key that carries a deprecation text (a warning whenever the running version <= lastversion v2.6)
 	{ID: "W", Class: "deprecated-key-with-text", Body: cfgBody("w", true, "5s", "RedisPeerManagement:\n  Prefix: custom\n")},
 	// deprecated key without deprecation text, lastversion v2.6 (warning or rejection depending on running version)
